@@ -80,8 +80,7 @@ Definition is_layer_type (o : pyval) : bool :=
   end.
 
 Fixpoint layer_default (o : pyval) : result pyval :=
-  let fix each (l : list pyval) : result (list pyval) :=
-    match l with [] => Ok [] | x :: xs => do y <- layer_default x; do ys <- each xs; Ok (y :: ys) end in
+  let each := mapR layer_default in      (* [self.default(x) for x in l] *)
   match o with
   | PObj CLayer [n_qubits; gates] =>
       do gs <- match gates with PTuple l | PList l => each l | _ => Err ModelScope end;
@@ -101,12 +100,11 @@ Definition is_evqe_type (o : pyval) : bool :=
   match o with PObj (CIndividual | CPopulation) _ => true | _ => false end.
 
 Fixpoint evqe_default (o : pyval) : result pyval :=
-  let fix each (l : list pyval) : result (list pyval) :=
-    match l with [] => Ok [] | x :: xs => do y <- evqe_default x; do ys <- each xs; Ok (y :: ys) end in
-  let fix each_key (l : list (pyval * pyval)) : result (list pyval) :=      (* [[self.default(k), v] for k, v in d.items()] *)
-    match l with [] => Ok [] | (k, v) :: xs => do y <- evqe_default k; do ys <- each_key xs; Ok (PList [y; v] :: ys) end in
-  let fix each_val (l : list (pyval * pyval)) : result (list pyval) :=      (* [[k, self.default(v)] for k, v in d.items()] *)
-    match l with [] => Ok [] | (k, v) :: xs => do y <- evqe_default v; do ys <- each_val xs; Ok (PList [k; y] :: ys) end in
+  let each := mapR evqe_default in       (* [self.default(x) for x in l] *)
+  let each_key :=                         (* [[self.default(k), v] for k, v in d.items()] *)
+    mapR (fun kv : pyval * pyval => let '(k, v) := kv in do y <- evqe_default k; Ok (PList [y; v])) in
+  let each_val :=                         (* [[k, self.default(v)] for k, v in d.items()] *)
+    mapR (fun kv : pyval * pyval => let '(k, v) := kv in do y <- evqe_default v; Ok (PList [k; y])) in
   (* if any(isinstance(o, t) for t in self._circuit_layer_encoder.serializable_types()) *)
   if is_layer_type o then layer_default o
   else match o with
